@@ -141,6 +141,94 @@ pub fn ops(seed: u64, scale: u32) -> Vec<Op> {
         let (ga3, gb3) = (ga.clone(), gb.clone());
         add(format!("unary_union.pair{i}"), Box::new(move || dig_mp(&unary_union(ga3.0.iter().chain(gb3.0.iter())))));
     }
+    // ---- equal operands at different places in memory: the same object on both sides against a separate copy of it, and
+    // the same listing of members whose storage runs in the opposite address order (a selection, a query result)
+    for i in 0..[1, 6, 6][scale as usize] {
+        let g = 6;
+        let a = loop {
+            let kind = *r.pick(&["Polygon", "PolygonHoles", "MultiPolygon", "MultiPolygon"]);
+            if let Some(x) = gen_kind(&mut r, kind, g) {
+                break x;
+            }
+        };
+        let b = loop {
+            let c = partner(&mut r, &a, g);
+            if matches!(c, IG::Polygon(_) | IG::MultiPolygon(_)) {
+                break c;
+            }
+        };
+        let (ga, gb) = (super::c04::to_mp(&a.to_geo(&Lat::ID)), super::c04::to_mp(&b.to_geo(&Lat::ID)));
+        // members as written (edge-sharing, overlapping, any ring start): nothing here is in the overlay's output form
+        let mut members: Vec<Polygon<f64>> = ga.0.iter().chain(gb.0.iter()).cloned().collect();
+        let both = MultiPolygon::new(members.clone());
+        for (k, name) in ["intersection", "union", "difference", "xor"].iter().enumerate() {
+            let both = both.clone();
+            add(
+                format!("placement.boolop.{name}.{i}"),
+                Box::new(move || {
+                    let op = |x: &MultiPolygon<f64>, y: &MultiPolygon<f64>| match k {
+                        0 => x.intersection(y),
+                        1 => x.union(y),
+                        2 => x.difference(y),
+                        _ => x.xor(y),
+                    };
+                    let copy = Box::new(both.clone());
+                    let (aliased, separate, swapped) = (dig_mp(&op(&both, &both)), dig_mp(&op(&both, &copy)), dig_mp(&op(&copy, &both)));
+                    if aliased != separate || swapped != separate {
+                        note_history(format!("MultiPolygon::{name}(x, y) with y the SAME object as x gives {aliased:016x}, with y a separate equal copy {separate:016x}, operands swapped {swapped:016x}"));
+                    }
+                    // the Polygon entry point
+                    let p = &both.0[0];
+                    let pc = Box::new(p.clone());
+                    let opp = |x: &Polygon<f64>, y: &Polygon<f64>| match k {
+                        0 => x.intersection(y),
+                        1 => x.union(y),
+                        2 => x.difference(y),
+                        _ => x.xor(y),
+                    };
+                    let (pa, ps) = (dig_mp(&opp(p, p)), dig_mp(&opp(p, &pc)));
+                    if pa != ps {
+                        note_history(format!("Polygon::{name}(x, y) with y the SAME object as x gives {pa:016x}, with y a separate equal copy {ps:016x}"));
+                    }
+                    separate ^ ps.rotate_left(1)
+                }),
+            );
+        }
+        // mixed windings: every second member reversed (which ring decides the fill rule must depend on the listing only)
+        for (j, m) in members.iter_mut().enumerate() {
+            if j % 2 == 1 {
+                m.exterior_mut(|e| e.0.reverse());
+            }
+        }
+        if i % 2 == 0 && members.len() >= 2 {
+            members.swap(0, 1);
+        }
+        add(
+            format!("placement.unary_union.{i}"),
+            Box::new(move || {
+                let fwd: Vec<Polygon<f64>> = members.clone();
+                let bwd: Vec<Polygon<f64>> = members.iter().rev().cloned().collect();
+                let boxed: Vec<Box<Polygon<f64>>> = members.iter().rev().map(|p| Box::new(p.clone())).collect();
+                let as_slice = dig_mp(&unary_union(&fwd));
+                let rising: Vec<&Polygon<f64>> = fwd.iter().collect();
+                let falling: Vec<&Polygon<f64>> = bwd.iter().rev().collect();
+                let scattered: Vec<&Polygon<f64>> = boxed.iter().rev().map(|b| &**b).collect();
+                let (d1, d2, d3) = (dig_mp(&unary_union(rising)), dig_mp(&unary_union(falling)), dig_mp(&unary_union(scattered)));
+                if d1 != as_slice || d2 != as_slice || d3 != as_slice {
+                    note_history(format!("unary_union of the same {} members listed in the same order: slice {as_slice:016x}, references with rising addresses {d1:016x}, with falling addresses {d2:016x}, separately boxed {d3:016x}", fwd.len()));
+                }
+                // a member listed twice: the same object twice, or the object and an equal copy of it
+                let extra = Box::new(fwd[0].clone());
+                let twice: Vec<&Polygon<f64>> = std::iter::once(&fwd[0]).chain(std::iter::once(&fwd[0])).chain(fwd[1..].iter()).collect();
+                let copy: Vec<&Polygon<f64>> = std::iter::once(&fwd[0]).chain(std::iter::once(&*extra)).chain(fwd[1..].iter()).collect();
+                let (t1, t2) = (dig_mp(&unary_union(twice)), dig_mp(&unary_union(copy)));
+                if t1 != t2 {
+                    note_history(format!("unary_union with the first member listed twice: the same object twice {t1:016x}, the object and an equal copy {t2:016x}"));
+                }
+                as_slice ^ t2.rotate_left(1)
+            }),
+        );
+    }
     // ---- many-member inputs: hash-order dependence shows with probability 1 - 1/12!
     // (30 squares: 60 triangles / 180 edges - large enough for any size-dependent path inside stitching)
     for (n, step, size, tag) in [(12usize, 3.0, 1.0, "disjoint"), (12, 1.0, 1.0, "edge_sharing"), (15, 0.75, 1.0, "overlapping"), (30, 3.0, 1.0, "disjoint_many")] {
@@ -364,10 +452,14 @@ pub fn run(ctx: &Ctx, sh: &mut Shard) {
                 }
                 _ => sh.class(&format!("panic_observed:{}", name.split('.').next().unwrap_or(""))),
             }
-            if name.starts_with("history.") {
+            if name.starts_with("history.") || name.starts_with("placement.") {
                 let notes: Vec<String> = HISTORY_MISMATCH.lock().map(|mut g| g.drain(..).collect()).unwrap_or_default();
                 if let Some(n) = notes.first() {
-                    sh.violation("history_dependence|history|-", json!({"property": "C20", "check": "history_dependence", "op": name, "ops_seed": seed, "scale": scale, "expected": "the same answer to the same query on the same object, whatever was asked before", "got": n}));
+                    if name.starts_with("history.") {
+                        sh.violation("history_dependence|history|-", json!({"property": "C20", "check": "history_dependence", "op": name, "ops_seed": seed, "scale": scale, "expected": "the same answer to the same query on the same object, whatever was asked before", "got": n}));
+                    } else {
+                        sh.violation(&format!("placement_dependence|{}|-", name.split('.').nth(1).unwrap_or("")), json!({"property": "C20", "check": "placement_dependence", "op": name, "ops_seed": seed, "scale": scale, "expected": "bit-identical output for equal input, wherever the operands are stored and whether or not they are the same object", "got": n}));
+                    }
                 }
             }
             sh.class(&format!("op:{}", name.split('.').next().unwrap_or("")));
